@@ -3,7 +3,7 @@
 set -u
 cd "$(dirname "$0")/.."
 export RUSTFLAGS="--cfg a4lg_ffuzzy_verif" CARGO_NET_OFFLINE=true
-CONFIGS="f-default f-unsafe f-unchecked f-reduce-fnv f-unsafe-reduce-fnv f-strict f-nodefault"
+CONFIGS="${*:-f-default f-unsafe f-unchecked f-reduce-fnv f-unsafe-reduce-fnv f-strict f-nodefault}"
 pids=()
 for c in $CONFIGS; do
   for prof in release relda; do
